@@ -200,8 +200,23 @@ def templated() -> List[str]:
     return out
 
 
+def nested_else() -> List[str]:
+    """Outer loop x inner loop with an else clause x where in that else clause a break / continue / return sits (directly, or inside an
+    if / elif / else): the terminator belongs to the OUTER loop."""
+    out = []
+    outers = {"while": "    i = 0\n    while i < a + 2:\n        i += 1\n{B}        r += ev(5, i)\n", "for": "    for i in seq(8, a + 2):\n{B}        r += ev(5, i)\n"}
+    inners = {"for": "        for j in seq(2, b + 1):\n            r += j\n            if j == c:\n                break\n        else:\n{E}",
+              "while": "        j = 0\n        while j < b + 1:\n            j += 1\n            r += j\n            if j == c:\n                break\n        else:\n{E}"}
+    elses = ["            r += ev(3, r)\n            {T}\n",
+             "            if i == 1:\n                {T}\n            r += ev(3, r)\n",
+             "            if i == 0:\n                r += 1\n            elif i == 1:\n                {T}\n            else:\n                r += 2\n            r += ev(4)\n"]
+    for (ok_, ot), (ik, it_), els, term in itertools.product(outers.items(), inners.items(), elses, ["break", "continue", "return r"]):
+        out.append("def f(a, b, c):\n    r = 0\n" + ot.replace("{B}", it_.replace("{E}", els.replace("{T}", term))) + "    return r + 1\n")
+    return out
+
+
 def corpus() -> List[str]:
-    return HAND + long_functions() + templated()
+    return HAND + long_functions() + templated() + nested_else()
 
 
 GRID = [(a, b, c) for a in (0, 1, 2, 3) for b in (0, 1, 2) for c in (0, 1, 3)]
